@@ -9,6 +9,15 @@ class InjectedFault(MemoryError):
     pass
 
 
+class InjectedInterrupt(KeyboardInterrupt):
+    """the other kind of interruption: not an Exception, so `except Exception` clean-up code
+    in the package does not see it"""
+
+
+class CallInterrupted(Exception):
+    """what the harness sees when an InjectedInterrupt left the call"""
+
+
 class FaultAt:
     """Fail a call at a seeded point: the k-th Python line executed inside the package
     during the call raises MemoryError there (an allocation that fails, or the user's
@@ -17,7 +26,8 @@ class FaultAt:
     fresh objects do."""
 
     def __init__(self, k):
-        self.k = int(k) if k else 0
+        self.kbd = bool(k) and int(k) < 0  # negative ordinal: KeyboardInterrupt instead of MemoryError
+        self.k = abs(int(k)) if k else 0
         self.n = 0
         self.fired = False
         self.where = None
@@ -29,6 +39,8 @@ class FaultAt:
             if self.n == self.k and not self.fired:
                 self.fired = True
                 self.where = "%s:%s" % (frame.f_code.co_filename[len(self.prefix) :], frame.f_code.co_name)
+                if self.kbd:
+                    raise InjectedInterrupt("injected interrupt at line event %d" % self.k)
                 raise InjectedFault("injected failure at line event %d" % self.k)
         return self._local
 
@@ -43,9 +55,11 @@ class FaultAt:
             sys.settrace(self._global)
         return self
 
-    def __exit__(self, *exc):
+    def __exit__(self, et, ev, tb):
         if self.k:
             sys.settrace(None)
+        if et is not None and issubclass(et, InjectedInterrupt):
+            raise CallInterrupted(str(ev)) from ev
         return False
 
 
@@ -54,4 +68,5 @@ def draw_fault(rng, hi=3000):
     are both hit"""
     import math
 
-    return int(math.exp(rng.uniform(0.0, math.log(hi)))) + 1
+    k = int(math.exp(rng.uniform(0.0, math.log(hi)))) + 1
+    return -k if rng.chance(0.3) else k
